@@ -499,7 +499,8 @@ PIPELINE_A = {"quick": ["Pipeline_sib2_quick.cfg", "Pipeline_nested2_quick.cfg",
 
 # design-level negative controls: one modelled decision switched to the wrong alternative must yield a counterexample
 PIPELINE_DEMOS = {
-    "C08": [("Pipeline_root2_bugdemo.cfg", "C08_Converges"), ("Pipeline_sib2_savedemo.cfg", "C08_SumAfterSuccess")],
+    "C08": [("Pipeline_root2_bugdemo.cfg", "C08_Converges"), ("Pipeline_sib2_savedemo.cfg", "C08_SumAfterSuccess"),
+            ("Pipeline_sib2_unknowndemo.cfg", "C08_SkipOnlyIfUnchanged")],
     "C07": [("Pipeline_sib2_keepdemo.cfg", "C07_ExistsIffRendered")],
 }
 
